@@ -368,6 +368,13 @@ def _probe_ns(func):
     return [2] * ndim_of(q, func)
 
 
+# Parameters that are named but cannot act by the model's own documented structure: the probe 'perturbing a
+# parameter changes the program' is a bug-catcher beyond the property's wording, so it must not fire on these.
+# bottlegrowth_2d_sel: the populations split at the present (Ts = 0), population 2 never exists for a positive
+# time, hence gamma2 has nothing to act on (same construction as Demographics2D.bottlegrowth -> bottlegrowth_split).
+NO_INFLUENCE_BY_DESIGN = {('bottlegrowth_2d_sel', 'gamma2')}
+
+
 def realize(g, tid):
     """Run the group description g under the proxies; returns the list of events (one trace group)."""
     ms = models()
@@ -382,6 +389,8 @@ def realize(g, tid):
                 # the programs of the base and of the perturbed parameter vectors are compared on a coarse grid (the events do not depend on it)
                 ev += evaluate(g['model'], f, g['params'], g['ns'], PTS_PROBE[len(g['ns'])], tid, 'p', fine=False)
             for k in g.get('perturb', []):
+                if (g['model'].split('.')[-1], names[k]) in NO_INFLUENCE_BY_DESIGN:
+                    continue
                 p2 = list(g['params'])
                 p2[k] = perturb(names[k], p2[k])
                 ev += evaluate(g['model'], f, p2, g['ns'], PTS_PROBE[len(g['ns'])], tid, 'p%d' % k)
